@@ -883,7 +883,9 @@ func c20SmallDelta(rng *rand.Rand, cs *c20Section, focus []c20Leaf) *c20Section 
 			t = t[k].(c20Tree)
 		}
 		delete(t, l.Keys[len(l.Keys)-1])
-	case l.Kind == "list" && rng.Intn(2) == 0:
+	case l.Kind == "list" && l.Path == "applications" && rng.Intn(2) == 0:
+		// (only host applications: the merged strategy sections are typed objects whose list fields are `omitempty`, an
+		// empty list there IS the unset field - reading decision, DESIGN 10.3)
 		c20Set(*target, l.Keys, []interface{}{})
 	default:
 		c20Set(*target, l.Keys, c20Value(l, rng.Intn(4), rng))
